@@ -182,6 +182,34 @@ def props_check(pid):
     return res
 
 
+def coqchk_props(pid):
+    """Independent re-check (coqchk) of Props/<pid>.vo and everything it depends on;
+    returns {ok, axioms:[...], detail}. Axioms must be within the allowlist (or
+    Coq's primitive float/int interface)."""
+    rc, out = sh("timeout 3000 coqchk -o -silent -Q . KV KV.Props.%s 2>&1" % pid, cwd=COQ, timeout=3100)
+    res = {"ok": False, "axioms": [], "detail": out[-2500:]}
+    if rc != 0:
+        return res
+    m = re.search(r"\* Axioms:(.*?)\n\s*\n\* Constants/Inductives relying on type-in-type:(.*?)\n\s*\n\* Constants/Inductives relying on unsafe \(co\)fixpoints:(.*?)\n\s*\n\* Inductives whose positivity is assumed:(.*?)(\n\s*\n|$)", out, re.S)
+    if not m:
+        res["detail"] = "could not parse coqchk summary: " + out[-1500:]
+        return res
+    axioms = [l.strip() for l in m.group(1).splitlines() if l.strip() and l.strip() != "<none>"]
+    other = [g.strip() for g in (m.group(2), m.group(3), m.group(4)) if g.strip() and g.strip() != "<none>"]
+    bad = []
+    for a in axioms:
+        short = a.split(".")[-1]
+        full_ok = any(a.endswith(x) or x.endswith(a) for x in ALLOWED_AXIOMS)
+        prim = any(t in a for t in ("PrimFloat", "PrimInt63", "FloatAxioms", "Uint63", "FloatOps", "Float", "Int63"))
+        if not (full_ok or prim):
+            bad.append(a)
+    res["axioms"] = axioms
+    res["ok"] = not bad and not other
+    if bad or other:
+        res["detail"] = "coqchk: unexpected axioms %s, other %s" % (bad, other)
+    return res
+
+
 # ----------------------------------------------------------------- harness build
 def harness_build(profile):
     """Build kvh against /repo's working tree with the hook cfg on."""
